@@ -329,13 +329,15 @@ pub fn chunked(a: &[String]) -> Value {
 ///   bad-signature       one hex digit of x-amz-signature changed                   -> must be refused
 ///   other-secret        signed with a secret that is not the named key's            -> must be refused
 ///   binary-file         valid; the file contains CR/LF runs, boundary look-alikes   -> stored exactly
+///   field-whitespace    valid; key ends in a space, a metadata value in CRLF SP TAB -> key and metadata arrive exactly
 pub fn post_form(a: &[String]) -> Value {
     let variant = a[0].as_str();
     let (date, stamp) = now_stamp(0);
     let region = "us-east-1";
     let cred = format!("{AK}/{date}/{region}/s3/aws4_request");
     let boundary = "----verifFormBoundary7MA4YWxk";
-    let key = "up/loaded name.bin";
+    let key = if variant == "field-whitespace" { "drafts/notes " } else { "up/loaded name.bin" };
+    let tag = if variant == "field-whitespace" { "first line\r\nsecond line\r\n \t" } else { "t1" };
     let expiration = if variant == "expired" { "2000-01-01T00:00:00.000Z" } else { "2099-01-01T00:00:00.000Z" };
     let mut conds = vec![format!("{{\"bucket\":\"bkt\"}}"), format!("{{\"x-amz-algorithm\":\"AWS4-HMAC-SHA256\"}}"),
                          format!("{{\"x-amz-credential\":\"{cred}\"}}"), format!("{{\"x-amz-date\":\"{stamp}\"}}"), "[\"starts-with\",\"$x-amz-meta-tag\",\"\"]".to_owned()];
@@ -357,7 +359,7 @@ pub fn post_form(a: &[String]) -> Value {
     } else { b"exactly twenty-3 bytes!".to_vec() };
     let mut body: Vec<u8> = Vec::new();
     let fields: Vec<(&str, String)> = vec![("key", key.to_owned()), ("x-amz-algorithm", "AWS4-HMAC-SHA256".into()), ("x-amz-credential", cred.clone()),
-        ("x-amz-date", stamp.clone()), ("x-amz-meta-tag", "t1".into()), ("policy", policy.clone()), ("x-amz-signature", sig.clone())];
+        ("x-amz-date", stamp.clone()), ("x-amz-meta-tag", tag.into()), ("policy", policy.clone()), ("x-amz-signature", sig.clone())];
     for (n, v) in &fields {
         body.extend_from_slice(format!("--{boundary}\r\nContent-Disposition: form-data; name=\"{n}\"\r\n\r\n{v}\r\n").as_bytes());
     }
@@ -369,12 +371,12 @@ pub fn post_form(a: &[String]) -> Value {
         ("content-type".into(), format!("multipart/form-data; boundary={boundary}")), ("content-length".into(), body.len().to_string())], body, 1024);
     let reached = calls.iter().any(|c| c.starts_with("put_object@"));
     let body_line = calls.iter().find(|c| c.starts_with("put_object.body")).cloned().unwrap_or_default();
-    let must_accept = variant == "valid" || variant == "binary-file";
+    let must_accept = variant == "valid" || variant == "binary-file" || variant == "field-whitespace";
     let attributed = calls.iter().any(|c| c == &format!("put_object@{AK}"));
     let mut fnv: u64 = 0xcbf29ce484222325;
     for y in &file { fnv = (fnv ^ u64::from(*y)).wrapping_mul(0x100000001b3); }
     let input = crate::service::last_input();
-    let mapped = input.contains(&format!("key: \"{key}\"")) && input.contains("bucket: \"bkt\"") && input.contains("\"tag\": \"t1\"");
+    let mapped = input.contains(&format!("key: {key:?},")) && input.contains("bucket: \"bkt\"") && input.contains(&format!("\"tag\": {tag:?}}}"));
     let ok = if must_accept { reached && attributed && mapped && body_line.contains(&format!("bytes={} ", file.len())) && body_line.contains("end=clean") && body_line.contains(&format!("fnv={fnv:016x}")) } else { !reached };
     json!({"violates": !ok, "input": {"variant": variant, "policy": policy_json, "key": key, "file_bytes": file.len()},
            "expected": if must_accept { "accepted: put_object for the named access key with exactly the file's bytes" } else { "refused before the backend runs" },
